@@ -2139,6 +2139,15 @@ pub fn macro_crate_main(items: &[MacroItem], seed: u64, thorough: bool) -> Strin
         let src = it.source();
         let mut args = String::new();
         let mut lets = String::new();
+        // every second explicit-parameter call passes each value through a local variable that
+        // carries the NAME OF ANOTHER PARAMETER (`a = b, b = a` with `let b = <value of a>`):
+        // the macro must evaluate all parameter expressions before binding any of them
+        let rotate = !it.captured && i % 2 == 0;
+        let groups: Vec<Vec<usize>> = {
+            let terms: Vec<usize> = it.bindings.iter().enumerate().filter(|(_, (_, v))| matches!(v, AnyP::Term(_))).map(|(j, _)| j).collect();
+            let keys: Vec<usize> = it.bindings.iter().enumerate().filter(|(_, (_, v))| matches!(v, AnyP::Key(_))).map(|(j, _)| j).collect();
+            vec![terms, keys]
+        };
         for (j, (n, v)) in it.bindings.iter().enumerate() {
             let e = match v {
                 AnyP::Term(_) => format!("v.term({})", j),
@@ -2147,7 +2156,15 @@ pub fn macro_crate_main(items: &[MacroItem], seed: u64, thorough: bool) -> Strin
             if it.captured {
                 writeln!(lets, "    let {} = {};", n, e).unwrap();
             } else {
-                write!(args, ", {} = {}", n, e).unwrap();
+                let group = groups.iter().find(|g| g.contains(&j)).unwrap();
+                if rotate && group.len() >= 2 {
+                    let pos = group.iter().position(|x| *x == j).unwrap();
+                    let carrier = &it.bindings[group[(pos + 1) % group.len()]].0;
+                    writeln!(lets, "    let {} = {};", carrier, e).unwrap();
+                    write!(args, ", {} = {}", n, carrier).unwrap();
+                } else {
+                    write!(args, ", {} = {}", n, e).unwrap();
+                }
             }
         }
         let lit = format!("r####\"{}\"####", src);
